@@ -199,10 +199,14 @@ func (e *env) do(method, u string, body []byte, o *reqOpt) resp {
 	return r
 }
 
+// gcIdle is a collection frequency whose ticker never fires within a case. (A negative frequency disables garbage
+// collection altogether, also the collection of a repository that leaves the cache or is closed.)
+const gcIdle = 100000 * time.Hour
+
 // baseConf: GC never runs by itself and collects nothing (a restart is a collection under the configured policy).
 func baseConf(store config.Store, root string) config.Config {
 	return config.Config{
-		Storage: config.ConfigStorage{StoreType: store, RootDir: root, GC: config.ConfigGC{Frequency: -1, GracePeriod: time.Hour,
+		Storage: config.ConfigStorage{StoreType: store, RootDir: root, GC: config.ConfigGC{Frequency: gcIdle, GracePeriod: time.Hour,
 			Untagged: bp(false), EmptyRepo: bp(false), ReferrersDangling: bp(false), ReferrersWithSubj: bp(false)}},
 		API: config.ConfigAPI{DeleteEnabled: bp(true), Blob: config.ConfigAPIBlob{DeleteEnabled: bp(true)}},
 	}
